@@ -1301,9 +1301,11 @@ def check_execstate(facts):
 # ---- MONOID ---------------------------------------------------------------------------------
 
 def check_monoid(facts):
-    r = RuleResult("MONOID", "the emitter hands out loop slots from a counter (`next_loop_id`) and sizes the loop store from `result.loops`: every "
-                             "store to either is `<itself> + constant` (the initial 0 in the constructor aside), so no two loops of a program "
-                             "share a slot and the store has one entry per loop. Rewinding the counter (`self.next_loop_id = saved`) makes a "
+    r = RuleResult("MONOID", "the emitter hands out loop slots from a counter (`next_loop_id`), sizes the loop store from `result.loops` and counts "
+                             "capture groups in `result.groups` (one per emitted CaptureGroup node, where the group's name is recorded): every "
+                             "store to any of them is `<itself> + constant` (the initial 0 in the constructor aside), so no two loops of a "
+                             "program share a slot, the store has one entry per loop, and groups are not counted in bulk past the place that "
+                             "records their names. Rewinding the counter (`self.next_loop_id = saved`) makes a "
                              "loop inside a lookaround and a loop after it share a LoopData whose undo records live on different backtrack "
                              "stacks: the empty-iteration check reads a stale count and the search does not terminate")
     n = 0
@@ -1315,7 +1317,7 @@ def check_monoid(facts):
             if s["k"] != "assign" or "*" not in s["pl"]["p"]:
                 continue
             fl = core.proj_fields(s["pl"])
-            if not fl or fl[-1] not in ("next_loop_id", "loops") or (fl[-1] == "loops" and "result" not in fl):
+            if not fl or fl[-1] not in ("next_loop_id", "loops", "groups") or (fl[-1] in ("loops", "groups") and "result" not in fl):
                 continue
             n += 1
             key = "%s store to %s #%d" % (re.sub(r"::\{closure#\d+\}", "", fn), ".".join(fl), n)
@@ -1343,7 +1345,8 @@ def check_monoid(facts):
                 r.ok(key, "incremented")
                 r.sample({"function": fn, "line": s["line"], "field": ".".join(fl)})
             else:
-                r.fail(key, "`%s` is assigned something other than itself plus a constant (line %s): loop slots can be handed out twice / the "
-                            "loop store no longer has one entry per loop" % (".".join(fl), s["line"]), facts.loc(fn, s["line"]))
-    r.floor("counter_stores", n, 2)
+                r.fail(key, "`%s` is assigned something other than itself plus a constant (line %s): loop slots can be handed out twice, the "
+                            "loop store no longer has one entry per loop, or groups are counted without their names being recorded" % (
+                                ".".join(fl), s["line"]), facts.loc(fn, s["line"]))
+    r.floor("counter_stores", n, 3)
     return r
